@@ -6,6 +6,7 @@ cd /repo || exit 2
 if [ -n "$(git status --porcelain --untracked-files=no)" ]; then echo "/repo has uncommitted changes; refusing"; exit 2; fi
 git apply "$patch" || { echo "patch does not apply"; exit 2; }
 cd /verif
+export VERIF_EVIDENCE_DIR=/verif/build/evidence_scratch
 for id in "$@"; do
   out=$(bin/check $id --tier $tier 2>&1); rc=$?
   line=$(echo "$out" | grep -E "^(VIOLATION|OK)" | head -n 1)
